@@ -876,7 +876,7 @@ def _worker(inp, outp):
     signal.signal(signal.SIGALRM, on_alarm)
 
     def call(h, fcs):
-        signal.setitimer(signal.ITIMER_REAL, 5.0)
+        signal.setitimer(signal.ITIMER_REAL, 3.0)
         try:
             r = compute_next_steps(copy.deepcopy(h), fcs, None, [])
             return ["steps", canon_steps(r)]
@@ -900,8 +900,14 @@ def _worker(inp, outp):
                 out.flush()
                 continue
             res = []
+            hung = 0
             for h in pr["histories"]:
+                if hung >= 2:          # this program makes the implementation spin: do not pay for every prefix
+                    res.append([["skipped"], ["skipped"], ["skipped"]])
+                    continue
                 r1 = call(h, shared)
+                if r1[0] == "hang":
+                    hung += 1
                 r2 = call(h, shared) if r1[0] != "hang" else r1
                 r3 = call(h, build(pr["text"])) if r1[0] != "hang" else r1
                 res.append([r1, r2, r3])
@@ -1084,6 +1090,9 @@ def run(tier, seed, replay=None):
         my_i, my_s = [], []
         orc = Oracle(pe["prog"])
         for h, (r1, r2, r3) in zip(pe["cases"], rec["results"]):
+            if r1[0] == "skipped":
+                dist["skipped-after-hang"] = dist.get("skipped-after-hang", 0) + 1
+                continue
             evals += 1
             res_hist[r1[0]] = res_hist.get(r1[0], 0) + 1
             payload = {"kind": "pair", "program": pe["prog"], "history": h, "text": pe["text"]}
